@@ -87,9 +87,38 @@ def detached_generator():
     return ok
 
 
+def one_cpu_default_workers():
+    """the default number of workers (`workers <= 0`: "as many as cpus") in a process that may run on one cpu only (taskset, a
+    one-core job): the maps still need at least one worker"""
+    from windpyutils.parallel.pools import FunctorMap
+    from windpyutils.parallel.maps import mul_p_map
+    try:
+        allowed = sorted(os.sched_getaffinity(0))
+        os.sched_setaffinity(0, {allowed[0]})
+    except (AttributeError, OSError):
+        print("SKIPPED (cpu affinity cannot be set)")
+        return True
+    ok = True
+    data = list(range(7))
+    with FunctorMap(small) as m:
+        got = list(m(iter(data), 2))
+    if got != [small(x) for x in data]:
+        print(f"WRONG fmap_one_cpu_default_workers: FunctorMap with the default number of workers: {got}")
+        ok = False
+    got = list(mul_p_map(small, iter(data), 0))
+    if got != [small(x) for x in data]:
+        print(f"WRONG fmap_one_cpu_default_workers: mul_p_map with workers=0: {got}")
+        ok = False
+    return ok
+
+
 def main(name):
     from windpyutils.parallel.pools import FunctorMap
     from windpyutils.parallel.maps import mul_p_map
+    if name == "fmap_one_cpu_default_workers":
+        ok = one_cpu_default_workers()
+        print("DONE" if ok else "FAILED")
+        return 0 if ok else 1
     if name == "fmap_detached_generator":
         ok = detached_generator()
         print("DONE" if ok else "FAILED")
